@@ -84,3 +84,73 @@ Definition cmonitor (t : tyx) (v : list Z) : bool :=
 (* C20 on two census rows of the same type under a smaller and a larger feature set: nothing is lost *)
 Definition cmonotone (small large : list Z) : bool :=
   allb (fun i => negb (nthz i small =? 1)%Z || (nthz i large =? 1)%Z) (seq 0 7).
+
+(* ---- 501 / 502 / 503: derive verdicts for structs and unions (C05), repr(C) layout model vs the
+   compiler (C05 / C19), offset_of! (C19) ---- *)
+From BM Require Import Model.ReprC Model.DeriveStruct.
+Local Open Scope Z_scope.
+Definition bit (m : Z) (k : Z) : bool := Z.odd (m / 2 ^ k).
+Fixpoint sfields_of (v : list Z) (n : nat) : list sfield :=
+  match n, v with
+  | S k, s :: a :: m :: r =>
+      mkSF (Z.to_N s) (Z.to_N a) (bit m 0) (bit m 1) (bit m 2) (bit m 3) (bit m 4) (bit m 5) (bit m 6) :: sfields_of r k
+  | _, _ => []
+  end.
+Definition derive_of (z : Z) : derive :=
+  match z with 0 => DPod | 1 => DNoUninit | 2 => DAnyBitPattern | 3 => DZeroable | _ => DTransparentWrapper end.
+Definition skind_of (z : Z) : skind := match z with 0 => KNamed | 1 => KTuple | 2 => KUnit | _ => KUnion end.
+
+(* vector: verdict der kind C tr packed align gen capture twattr plain_size nf (size align mask)* *)
+Definition sdef_of (v : list Z) : sdef :=
+  mkSD (skind_of (nthz 2 v)) (nthz 3 v =? 1) (nthz 4 v =? 1) (Z.to_N (nthz 5 v)) (Z.to_N (nthz 6 v))
+       (negb (nthz 7 v =? 0)) (nthz 8 v =? 1) (nthz 9 v =? 1) (sfields_of (skipn 12 v) (Z.to_nat (nthz 11 v))).
+
+Definition model_derive_struct (v : list Z) : list Z :=
+  zb (derive_accepts (derive_of (nthz 1 v)) (sdef_of v) (Z.to_N (nthz 10 v))) :: tl v.
+
+(* C05 on one observed verdict: accepted => the contract holds of the type as the COMPILER laid it
+   out; documented requirements met => accepted *)
+Definition mon_derive_struct (v : list Z) : bool :=
+  let d := sdef_of v in let dv := derive_of (nthz 1 v) in let sz := Z.to_N (nthz 10 v) in
+  if nthz 0 v =? 1 then contract_ok dv d sz else negb (documented_ok dv d sz).
+
+(* vector: C tr packed align obs_size obs_align nf (size align obs_offset)* *)
+Fixpoint flds3 (v : list Z) (n : nat) : list fld * list Z :=
+  match n, v with
+  | S k, s :: a :: o :: r => let '(fs, os) := flds3 r k in (mkFld (Z.to_N s) (Z.to_N a) :: fs, o :: os)
+  | _, _ => ([], [])
+  end.
+Definition model_layout (v : list Z) : list Z :=
+  let '(fs, os) := flds3 (skipn 7 v) (Z.to_nat (nthz 6 v)) in
+  let l := layout_C (Z.to_N (nthz 2 v)) (Z.to_N (nthz 3 v)) fs in
+  let fix weave (fs : list fld) (os : list N) : list Z :=
+    match fs, os with f :: r, o :: q => Z.of_N (f_size f) :: Z.of_N (f_align f) :: Z.of_N o :: weave r q | _, _ => [] end in
+  firstn 4 v ++ [Z.of_N (lc_size l); Z.of_N (lc_align l); nthz 6 v] ++ weave fs (lc_offsets l).
+
+(* vector: compiled packed falign macro2 macro3 core   (the two forms of offset_of! and the compiler's own) *)
+Definition model_offset_of (v : list Z) : list Z :=
+  let rejected := negb (nthz 1 v =? 0) && (nthz 1 v <? nthz 2 v) in
+  if rejected then [0; nthz 1 v; nthz 2 v; -1; -1; nthz 5 v] else [1; nthz 1 v; nthz 2 v; nthz 5 v; nthz 5 v; nthz 5 v].
+Definition mon_offset_of (v : list Z) : bool :=
+  if nthz 0 v =? 1 then (nthz 3 v =? nthz 5 v) && (nthz 4 v =? nthz 5 v) && negb (negb (nthz 1 v =? 0) && (nthz 1 v <? nthz 2 v))
+  else true.
+(* 504: a field reached only through Deref: must not compile *)
+Definition model_offset_deref (v : list Z) : list Z := [0].
+Definition mon_offset_deref (v : list Z) : bool := nthz 0 v =? 0.
+
+Definition xmodel2 (a : acase) (v : list Z) : list Z :=
+  match a_fn a with
+  | 501%N => model_derive_struct v
+  | 502%N => model_layout v
+  | 503%N => model_offset_of v
+  | 504%N => model_offset_deref v
+  | _ => xmodel a v
+  end.
+Definition xmonitors2 (a : acase) (v : list Z) : list (N * bool) :=
+  match a_fn a with
+  | 501%N => [(5%N, mon_derive_struct v)]
+  | 502%N => []
+  | 503%N => [(19%N, mon_offset_of v)]
+  | 504%N => [(19%N, mon_offset_deref v)]
+  | _ => xmonitors a v
+  end.
